@@ -4,6 +4,7 @@ import (
 	"fmt"
 	"go/ast"
 	"go/token"
+	"go/types"
 
 	"golang.org/x/tools/go/packages"
 )
@@ -38,6 +39,11 @@ func (n *normCtx) literalRange(s ast.Stmt) []ast.Stmt {
 		return keep
 	}
 	lit, ok := rs.X.(*ast.CompositeLit)
+	var detach func()
+	if id, isId := rs.X.(*ast.Ident); isId && !ok {
+		lit, detach = n.literalOfVar(id)
+		ok = lit != nil
+	}
 	if !ok || len(lit.Elts) == 0 || len(lit.Elts) > 6 {
 		return keep
 	}
@@ -115,7 +121,19 @@ func (n *normCtx) literalRange(s ast.Stmt) []ast.Stmt {
 	record := func(orig, cp *ast.Ident) { n.in.origOf[cp] = orig }
 	var out []ast.Stmt
 	var tmps []string
+	if detach != nil {
+		detach()
+	}
+	direct := map[int]ast.Expr{}
 	for i, e := range lit.Elts {
+		if fl, isFn := e.(*ast.FuncLit); isFn && rs.Value != nil && !isBlank(rs.Value) {
+			// a function literal is bound to the loop variable directly (it
+			// has no evaluation to order): the body then calls a local
+			// closure, which the next round looks into
+			direct[i] = fl
+			tmps = append(tmps, "")
+			continue
+		}
 		if inner, isLit := e.(*ast.CompositeLit); isLit && inner.Type == nil {
 			inner.Type = cloneNode(at.Elt, record).(ast.Expr)
 		}
@@ -137,8 +155,19 @@ func (n *normCtx) literalRange(s ast.Stmt) []ast.Stmt {
 		}
 		var list []ast.Stmt
 		if val != nil && !isBlank(val) {
-			list = append(list, &ast.AssignStmt{Lhs: []ast.Expr{val}, TokPos: pos, Tok: token.DEFINE, Rhs: []ast.Expr{&ast.Ident{NamePos: pos, Name: tmp}}})
-			list = append(list, &ast.AssignStmt{Lhs: []ast.Expr{&ast.Ident{NamePos: pos, Name: "_"}}, TokPos: pos, Tok: token.ASSIGN, Rhs: []ast.Expr{cloneNode(val, record).(ast.Expr)}})
+			var rhs ast.Expr = &ast.Ident{NamePos: pos, Name: tmp}
+			if d := direct[i]; d != nil {
+				rhs = d
+			}
+			def := &ast.AssignStmt{Lhs: []ast.Expr{val}, TokPos: pos, Tok: token.DEFINE, Rhs: []ast.Expr{rhs}}
+			list = append(list, def)
+			if direct[i] != nil {
+				// (looked at as a local closure in the next round, when the
+				// copies of the loop variable are variables of their own)
+				n.in.synthDefs[def] = true
+			} else {
+				list = append(list, &ast.AssignStmt{Lhs: []ast.Expr{&ast.Ident{NamePos: pos, Name: "_"}}, TokPos: pos, Tok: token.ASSIGN, Rhs: []ast.Expr{cloneNode(val, record).(ast.Expr)}})
+			}
 		}
 		list = append(list, body.List...)
 		out = append(out, &ast.BlockStmt{Lbrace: pos, List: list, Rbrace: rs.End()})
@@ -146,4 +175,186 @@ func (n *normCtx) literalRange(s ast.Stmt) []ast.Stmt {
 	n.in.dirty[n.file] = true
 	n.in.res.Normalized = append(n.in.res.Normalized, fmt.Sprintf("loop over a %d-element literal at %s written out", len(tmps), n.in.fset.Position(pos)))
 	return []ast.Stmt{&ast.BlockStmt{Lbrace: pos, List: out, Rbrace: rs.End()}}
+}
+
+// literalOfVar: id names a local slice variable that is given a short literal
+// where it is declared (directly or as a copy of such a variable), is never
+// assigned again, whose address is not taken and that is used for nothing but
+// this loop (and `_ = v`): the literal, and a function that takes it out of
+// the declaration (the variable is left nil). Only literals whose elements
+// have no evaluation to order (function literals, named constants, names of
+// locals, basic literals) qualify, since their evaluation moves to the loop.
+func (n *normCtx) literalOfVar(id *ast.Ident) (*ast.CompositeLit, func()) {
+	info := n.pkg.TypesInfo
+	resolve := func(x *ast.Ident) types.Object {
+		o := x
+		for n.in.origOf[o] != nil {
+			o = n.in.origOf[o]
+		}
+		if obj := info.Uses[o]; obj != nil {
+			return obj
+		}
+		return info.Defs[o]
+	}
+	type vinfo struct {
+		init    *ast.Expr
+		other   int
+		ranges  int
+		aliases int
+	}
+	vars := map[types.Object]*vinfo{}
+	get := func(o types.Object) *vinfo {
+		if vars[o] == nil {
+			vars[o] = &vinfo{}
+		}
+		return vars[o]
+	}
+	// the enclosing function declaration
+	var body ast.Node
+	for _, d := range n.file.Decls {
+		if fd, ok := d.(*ast.FuncDecl); ok && fd.Body != nil && fd.Body.Pos() <= id.Pos() && id.End() <= fd.Body.End() {
+			body = fd.Body
+		}
+	}
+	if body == nil {
+		// positions of moved code are unreliable: search by identity
+		for _, d := range n.file.Decls {
+			fd, ok := d.(*ast.FuncDecl)
+			if !ok || fd.Body == nil {
+				continue
+			}
+			ast.Inspect(fd.Body, func(x ast.Node) bool {
+				if x == ast.Node(id) {
+					body = fd.Body
+				}
+				return body == nil
+			})
+		}
+	}
+	if body == nil {
+		return nil, nil
+	}
+	var stack []ast.Node
+	ast.Inspect(body, func(x ast.Node) bool {
+		if x == nil {
+			stack = stack[:len(stack)-1]
+			return true
+		}
+		stack = append(stack, x)
+		switch y := x.(type) {
+		case *ast.ValueSpec:
+			if len(y.Names) == 1 && len(y.Values) == 1 && y.Names[0].Name != "_" {
+				if o := resolve(y.Names[0]); o != nil {
+					get(o).init = &y.Values[0]
+				}
+			}
+		case *ast.AssignStmt:
+			for i, l := range y.Lhs {
+				li, ok := l.(*ast.Ident)
+				if !ok || li.Name == "_" {
+					continue
+				}
+				o := resolve(li)
+				if o == nil {
+					continue
+				}
+				if y.Tok == token.DEFINE && len(y.Lhs) == 1 && len(y.Rhs) == 1 && info.Defs[li] != nil {
+					get(o).init = &y.Rhs[i]
+				} else {
+					get(o).other++
+				}
+			}
+		case *ast.IncDecStmt:
+			if li, ok := y.X.(*ast.Ident); ok {
+				if o := resolve(li); o != nil {
+					get(o).other++
+				}
+			}
+		case *ast.Ident:
+			o := resolve(y)
+			if _, isVar := o.(*types.Var); !isVar || len(stack) < 2 {
+				return true
+			}
+			switch p := stack[len(stack)-2].(type) {
+			case *ast.ValueSpec:
+				for _, nm := range p.Names {
+					if nm == y {
+						return true
+					}
+				}
+				if len(p.Values) == 1 && p.Values[0] == ast.Expr(y) && len(p.Names) == 1 {
+					get(o).aliases++
+					return true
+				}
+			case *ast.AssignStmt:
+				for _, l := range p.Lhs {
+					if l == ast.Expr(y) {
+						return true
+					}
+				}
+				if len(p.Rhs) == 1 && p.Rhs[0] == ast.Expr(y) && len(p.Lhs) == 1 {
+					if isBlank(p.Lhs[0]) {
+						return true
+					}
+					if p.Tok == token.DEFINE {
+						get(o).aliases++
+						return true
+					}
+				}
+			case *ast.RangeStmt:
+				if p.X == ast.Expr(y) {
+					get(o).ranges++
+					return true
+				}
+			}
+			get(o).other++
+		}
+		return true
+	})
+	o := resolve(id)
+	for depth := 0; o != nil && depth < 4; depth++ {
+		vi := vars[o]
+		if vi == nil || vi.init == nil || vi.other != 0 {
+			return nil, nil
+		}
+		if depth == 0 && (vi.ranges != 1 || vi.aliases != 0) {
+			return nil, nil
+		}
+		if depth > 0 && (vi.ranges != 0 || vi.aliases != 1) {
+			return nil, nil
+		}
+		switch e := (*vi.init).(type) {
+		case *ast.Ident:
+			o = resolve(e)
+			continue
+		case *ast.CompositeLit:
+			at, ok := e.Type.(*ast.ArrayType)
+			if !ok || at.Len != nil {
+				return nil, nil
+			}
+			for _, el := range e.Elts {
+				switch z := el.(type) {
+				case *ast.FuncLit, *ast.BasicLit, *ast.Ident:
+				case *ast.SelectorExpr:
+					q, isId := z.X.(*ast.Ident)
+					if !isId {
+						return nil, nil
+					}
+					if _, isPkg := resolve(q).(*types.PkgName); !isPkg {
+						return nil, nil
+					}
+				default:
+					return nil, nil
+				}
+			}
+			slot := vi.init
+			record := func(orig, cp *ast.Ident) { n.in.origOf[cp] = orig }
+			return e, func() {
+				*slot = &ast.CallExpr{Fun: &ast.ParenExpr{X: cloneNode(e.Type, record).(ast.Expr)}, Args: []ast.Expr{ast.NewIdent("nil")}}
+			}
+		default:
+			return nil, nil
+		}
+	}
+	return nil, nil
 }
